@@ -72,7 +72,8 @@ def check_c05(tier):
         "SPECIFICATION Spec", "CONSTANTS", "  EndPoints = " + ends, "  Probes = " + probes,
         "  MaxSupported = 4",
         "INVARIANT RangeSemantics", "INVARIANT OverlapIffShared", "INVARIANT HeaderPolicyTotal",
-        "INVARIANT SameAsUnbounded", "INVARIANT EmitVec", "CHECK_DEADLOCK FALSE", ""])
+        "INVARIANT SameAsUnbounded", "INVARIANT UnversionedBuildRule", "INVARIANT PolicyRefinesHeader",
+        "INVARIANT EmitVec", "CHECK_DEADLOCK FALSE", ""])
     res = vlib.run_tlc("C05-versions", "MC_Versions.tla", cfgname, workers=4, timeout=900,
                        extra_files={cfgname: cfg}, coverage=False)
     vlib.tlc_ok(res, "versions")
